@@ -50,11 +50,11 @@ Ltac brk := repeat match goal with
 Lemma running_eq x : is_running x = true -> x = Running.
 Proof. destruct x; try discriminate; reflexivity. Qed.
 
-Lemma do_status_inv c p s : Inv c p s -> Inv c p (fst (do_status s)).
+Lemma do_status_inv c p s : Inv c p s -> Inv c p (fst (do_status c s)).
 Proof.
   intros H. unfold do_status.
   destruct (is_running (status s)) eqn:Er; [|exact H].
-  destruct (worker s) eqn:Ew; [exact H|exact H|]. apply running_eq in Er.
+  destruct (worker s) eqn:Ew; [destruct (status_needs_worker (ver c)); exact H|exact H|]. apply running_eq in Er.
   (* dead worker while running: only after an escaped exception *)
   destruct H as (Hp & Hr & Hs & He). unfold Inv, pc_inv, res_inv, wk_of in *; cbn.
   destruct (pc s) eqn:Epc; brk; try (destruct (sync s); congruence); try congruence.
@@ -62,15 +62,15 @@ Proof.
   repeat split; auto; try congruence.
 Qed.
 
-Lemma do_status_fields s : let s' := fst (do_status s) in
+Lemma do_status_fields c s : let s' := fst (do_status c s) in
   pc s' = pc s /\ calls s' = calls s /\ results s' = results s /\ conv_pending s' = conv_pending s /\
   cancel s' = cancel s /\ sync s' = sync s /\ worker s' = worker s /\ mapp s' = mapp s /\ cmd s' = cmd s /\
   user_cb s' = user_cb s /\ cb_log s' = cb_log s.
-Proof. unfold do_status. cbv zeta. destruct (is_running (status s)); [destruct (worker s) eqn:E|]; cbn; rewrite ?E; repeat split; reflexivity. Qed.
+Proof. unfold do_status. cbv zeta. destruct (is_running (status s)); [destruct (worker s) eqn:E; [destruct (status_needs_worker (ver c))| |]|]; cbn; rewrite ?E; repeat split; reflexivity. Qed.
 
-Lemma do_status_view s : let s' := fst (do_status s) in
-  snd (do_status s) = SAttrErr \/ snd (do_status s) = SOk (status s') (progress s') (phase s') (msg s').
-Proof. unfold do_status. cbv zeta. destruct (is_running (status s)); [destruct (worker s) eqn:E|]; cbn; auto. Qed.
+Lemma do_status_view c s : let s' := fst (do_status c s) in
+  snd (do_status c s) = SAttrErr \/ snd (do_status c s) = SOk (status s') (progress s') (phase s') (msg s').
+Proof. unfold do_status. cbv zeta. destruct (is_running (status s)); [destruct (worker s) eqn:E; [destruct (status_needs_worker (ver c))| |]|]; cbn; auto. Qed.
 
 Ltac fin := unfold Inv, pc_inv, res_inv, wk_of in *; cbn in *; brk; repeat split; auto; try congruence.
 
@@ -80,10 +80,10 @@ Proof.
     match goal with H : status s = _ |- _ => rewrite H in *; discriminate end.
 Qed.
 
-Lemma do_get_inv c p s : Inv c p s -> Inv c p (fst (do_get s)).
+Lemma do_get_inv c p s : Inv c p s -> Inv c p (fst (do_get c s)).
 Proof.
-  intros H. unfold do_get. pose proof (do_status_inv c p s H) as H1. pose proof (do_status_view s) as Hv.
-  destruct (do_status s) as [s1 v]; cbn in *. destruct Hv as [Hv|Hv]; subst v; [exact H1|].
+  intros H. unfold do_get. pose proof (do_status_inv c p s H) as H1. pose proof (do_status_view c s) as Hv.
+  destruct (do_status c s) as [s1 v]; cbn in *. destruct Hv as [Hv|Hv]; subst v; [exact H1|].
   destruct (maybe_completed (status s1)) eqn:Em; cbn; [|exact H1].
   destruct (conv_pending s1) eqn:Ec; [|exact H1].
   destruct (results s1) eqn:Er; [|destruct (is_failed (status s1)); exact H1].
@@ -112,18 +112,18 @@ Qed.
 Lemma ucb_no_cancel c : cancel_requested (ucb_resp c) = false.
 Proof. unfold ucb_resp. destruct (c mod 3) as [|[q|q|]|]; reflexivity. Qed.
 
-Lemma do_get_fields s : let s' := fst (do_get s) in
+Lemma do_get_fields c s : let s' := fst (do_get c s) in
   pc s' = pc s /\ calls s' = calls s /\ cancel s' = cancel s /\ sync s' = sync s /\ worker s' = worker s /\
-  status s' = status (fst (do_status s)) /\ msg s' = msg (fst (do_status s)).
+  status s' = status (fst (do_status c s)) /\ msg s' = msg (fst (do_status c s)).
 Proof.
-  unfold do_get. pose proof (do_status_fields s) as F. cbv zeta in *. destruct (do_status s) as [s1 v]; cbn in *. brk.
+  unfold do_get. pose proof (do_status_fields c s) as F. cbv zeta in *. destruct (do_status c s) as [s1 v]; cbn in *. brk.
   destruct v; cbn; [|repeat split; assumption].
   destruct (negb (maybe_completed x)); cbn; [repeat split; assumption|].
   destruct (conv_pending s1); [|repeat split; assumption].
   destruct (results s1); [destruct (shape r =? 0)|]; cbn; repeat split; assumption.
 Qed.
 
-Lemma wk_inv c p s : Inv c p s -> Inv c p (fst (wk p s)).
+Lemma wk_inv c p s : Inv c p s -> Inv c p (fst (wk c p s)).
 Proof.
   intros H. unfold wk. destruct (pc s) eqn:Epc; try exact H.
   - (* PStart *) destruct H as (Hp & Hr & Hs & He). unfold Inv, pc_inv, res_inv, wk_of in *; rewrite Epc in *; cbn.
@@ -154,8 +154,8 @@ Proof.
   - (* PExc *) destruct H as (Hp & Hr & Hs & He). unfold finish_worker. cbn; destruct (sync s) eqn:Esy;
     unfold Inv, pc_inv, res_inv, wk_of in *; rewrite Epc in *; cbn; rewrite ?Esy in *; brk; repeat split; auto;
       try congruence; try discriminate.
-  - (* PSyncRet *) pose proof (do_get_inv c p s H) as H1. pose proof (do_get_fields s) as Hpc. cbv zeta in Hpc.
-    destruct (do_get s) as [s1 g]; cbn in *. destruct Hpc as (Hpc & _). rewrite Epc in Hpc.
+  - (* PSyncRet *) pose proof (do_get_inv c p s H) as H1. pose proof (do_get_fields c s) as Hpc. cbv zeta in Hpc.
+    destruct (do_get c s) as [s1 g]; cbn in *. destruct Hpc as (Hpc & _). rewrite Epc in Hpc.
     destruct H1 as (Hp & Hr & Hs & He). unfold Inv, pc_inv, res_inv in *; cbn. rewrite Hpc in Hp. brk.
     repeat split; auto.
 Qed.
@@ -164,10 +164,10 @@ Lemma step_inv c p s e : Inv c p s -> Inv c p (fst (step c p s e)).
 Proof.
   intros H. destruct e as [|[| | |m a k|cb]]; cbn.
   - apply wk_inv; exact H.
-  - pose proof (do_status_inv c p s H). destruct (do_status s); exact H0.
+  - pose proof (do_status_inv c p s H). destruct (do_status c s); exact H0.
   - destruct H as (Hp & Hr & Hs & He). unfold Inv, pc_inv, res_inv, wk_of in *; cbn.
     destruct (pc s); brk; repeat split; auto. eexists; repeat split; eauto.
-  - pose proof (do_get_inv c p s H). destruct (do_get s); exact H0.
+  - pose proof (do_get_inv c p s H). destruct (do_get c s); exact H0.
   - pose proof (do_exec_inv c p s m a k H). destruct (do_exec c s m a k); exact H0.
   - destruct H as (Hp & Hr & Hs & He). unfold Inv, pc_inv, res_inv, wk_of in *; cbn. repeat split; auto.
 Qed.
@@ -215,8 +215,20 @@ Proof.
   destruct (pc (final c p l)); try discriminate; brk; assumption.
 Qed.
 
+(* the code as it is now: every status query made between the accepted execute and the wrapper's finish reports
+   RUNNING, for synchronous and asynchronous runs alike *)
+Theorem status_query_running c p l : status_needs_worker (ver c) = false -> let s := final c p l in
+  mid_run (pc s) = true -> do_status c s = (s, SOk Running (progress s) (phase s) (msg s)).
+Proof.
+  cbv zeta. intros Hv H. pose proof (status_running_until_finish c p l H) as Er.
+  destruct (final_inv c p l) as (Hp & _). unfold pc_inv, wk_of in Hp. unfold do_status. rewrite Er, Hv. cbn.
+  destruct (pc (final c p l)); try discriminate; brk;
+  match goal with H : worker _ = _ |- _ => rewrite H end; destruct (sync (final c p l)); reflexivity.
+Qed.
+
+(* any version of the code: right for asynchronous runs *)
 Theorem status_query_running_async c p l : let s := final c p l in
-  mid_run (pc s) = true -> sync s = false -> do_status s = (s, SOk Running (progress s) (phase s) (msg s)).
+  mid_run (pc s) = true -> sync s = false -> do_status c s = (s, SOk Running (progress s) (phase s) (msg s)).
 Proof.
   cbv zeta. intros H Hs. pose proof (status_running_until_finish c p l H) as Er.
   destruct (final_inv c p l) as (Hp & _). unfold pc_inv, wk_of in Hp. unfold do_status. rewrite Er. cbn.
@@ -224,24 +236,28 @@ Proof.
   match goal with H : worker _ = WAlive |- _ => rewrite H; reflexivity end.
 Qed.
 
-Theorem status_query_during_sync_run c p l : let s := final c p l in
-  mid_run (pc s) = true -> sync s = true -> do_status s = (s, SAttrErr).
+(* HISTORICAL (code before 5d55599b): every status query during a synchronous run raised AttributeError *)
+Theorem status_query_during_sync_run_old_code c p l : status_needs_worker (ver c) = true -> let s := final c p l in
+  mid_run (pc s) = true -> sync s = true -> do_status c s = (s, SAttrErr).
 Proof.
-  cbv zeta. intros H Hs. pose proof (status_running_until_finish c p l H) as Er.
-  destruct (final_inv c p l) as (Hp & _). unfold pc_inv, wk_of in Hp. unfold do_status. rewrite Er. cbn.
+  cbv zeta. intros Hv H Hs. pose proof (status_running_until_finish c p l H) as Er.
+  destruct (final_inv c p l) as (Hp & _). unfold pc_inv, wk_of in Hp. unfold do_status. rewrite Er, Hv. cbn.
   destruct (pc (final c p l)); try discriminate; brk; rewrite Hs in *;
   match goal with H : worker _ = WNone |- _ => rewrite H; reflexivity end.
 Qed.
 
-Definition cfg_w : cfg := mkcfg [10] [(10, None)] [] true None.
+Definition cfg_w : cfg := mkcfg [10] [(10, None)] [] true None code_now.
+(* the same job run by the code before the repairs 5d55599b / 53f68db6 *)
+Definition cfg_old : cfg := mkcfg [10] [(10, None)] [] true None code_3e543e6e.
 Definition prog_w : prog := mkprog [(500, 1)] ORet false 0 5 6.
-Theorem status_query_running_refuted : exists c p l, let s := final c p l in
-  mid_run (pc s) = true /\ snd (do_status s) = SAttrErr.
-Proof. exists cfg_w, prog_w, [Act (AExec Sync [3] []); Wk]. vm_compute. split; reflexivity. Qed.
+(* HISTORICAL witness: with the old code the full statement was false *)
+Theorem status_query_running_refuted_old_code : exists p l, let s := final cfg_old p l in
+  mid_run (pc s) = true /\ snd (do_status cfg_old s) = SAttrErr.
+Proof. exists prog_w, [Act (AExec Sync [3] []); Wk]. vm_compute. split; reflexivity. Qed.
 
 (* ------------------------------------------------------------------ 4. no results while it runs *)
 Theorem no_results_while_running c p l : let s := final c p l in
-  (pc s = PIdle \/ mid_run (pc s) = true) -> forall v, snd (do_get s) <> GValue v.
+  (pc s = PIdle \/ mid_run (pc s) = true) -> forall v, snd (do_get c s) <> GValue v.
 Proof.
   cbv zeta. intros H v. destruct (final_inv c p l) as (Hp & _). unfold do_get, do_status.
   assert (E : status (final c p l) = Waiting \/ (status (final c p l) = Running /\ worker (final c p l) <> WDead)).
@@ -249,7 +265,8 @@ Proof.
     destruct (pc (final c p l)); try discriminate; brk; right; split; auto;
     match goal with H : worker _ = _ |- _ => rewrite H end; destruct (sync (final c p l)); discriminate. }
   destruct E as [E|[E Ew]]; rewrite E; cbn; [discriminate|].
-  destruct (worker (final c p l)); cbn; try discriminate. congruence.
+  destruct (worker (final c p l)); [destruct (status_needs_worker (ver c))| |]; cbn; rewrite ?E; cbn; try discriminate.
+  congruence.
 Qed.
 
 (* ------------------------------------------------------------------ 3. the final state is truthful *)
@@ -272,7 +289,7 @@ Lemma ores_base_trans a b d : ores_base a b -> ores_base b d -> ores_base a d.
 Proof. destruct a, b, d; cbn; unfold same_base; intros; brk; try contradiction; repeat split; congruence. Qed.
 
 (* once a final status is set, nothing changes it, nor the message, nor the base of the results *)
-Lemma do_get_stable s : maybe_completed (status s) = true -> let s' := fst (do_get s) in
+Lemma do_get_stable c s : maybe_completed (status s) = true -> let s' := fst (do_get c s) in
   status s' = status s /\ msg s' = msg s /\ ores_base (results s) (results s').
 Proof.
   intros Hm. unfold do_get, do_status. destruct (status s) eqn:Est; try discriminate; cbn; rewrite ?Est; cbn;
@@ -285,12 +302,12 @@ Lemma step_stable c p s e : Inv c p s -> maybe_completed (status s) = true -> le
 Proof.
   intros (Hp & _) Hm. destruct e as [|[| | |m a k|cb]]; cbn.
   - destruct (final_pc p s Hp Hm) as [E|E]; unfold wk; rewrite E; cbn; [|repeat split; auto using ores_base_refl].
-    pose proof (do_get_stable s Hm) as G. pose proof (do_get_fields s) as F. cbv zeta in *.
-    destruct (do_get s) as [s1 g]; cbn in *. brk. repeat split; auto.
+    pose proof (do_get_stable c s Hm) as G. pose proof (do_get_fields c s) as F. cbv zeta in *.
+    destruct (do_get c s) as [s1 g]; cbn in *. brk. repeat split; auto.
   - unfold do_status. destruct (status s) eqn:Est; try discriminate; cbn; rewrite ?Est; repeat split; auto using ores_base_refl.
   - repeat split; auto using ores_base_refl.
-  - pose proof (do_get_stable s Hm) as G. pose proof (do_get_fields s) as F. cbv zeta in *.
-    destruct (do_get s) as [s1 g]; cbn in *. brk. repeat split; auto.
+  - pose proof (do_get_stable c s Hm) as G. pose proof (do_get_fields c s) as F. cbv zeta in *.
+    destruct (do_get c s) as [s1 g]; cbn in *. brk. repeat split; auto.
   - unfold do_exec. destruct (status s) eqn:Est; try discriminate; cbn; rewrite ?Est; repeat split; auto using ores_base_refl.
   - repeat split; auto using ores_base_refl.
 Qed.
@@ -318,10 +335,10 @@ Proof.
       * destruct (cancel s) eqn:Ec; [|destruct (user_cb s)]; cbn; rewrite ?Ec; reflexivity.
     + unfold finish_worker. destruct (cancel s) eqn:Ec; cbn; destruct (sync s); cbn; rewrite ?Ec; reflexivity.
     + unfold finish_worker. cbn. destruct (sync s); reflexivity.
-    + pose proof (do_get_fields s) as F. cbv zeta in F. destruct (do_get s); cbn in *. brk. assumption.
-  - pose proof (do_status_fields s) as F. cbv zeta in F. destruct (do_status s); cbn in *. brk. assumption.
+    + pose proof (do_get_fields c s) as F. cbv zeta in F. destruct (do_get c s); cbn in *. brk. assumption.
+  - pose proof (do_status_fields c s) as F. cbv zeta in F. destruct (do_status c s); cbn in *. brk. assumption.
   - symmetry; apply orb_true_r.
-  - pose proof (do_get_fields s) as F. cbv zeta in F. destruct (do_get s); cbn in *. brk. assumption.
+  - pose proof (do_get_fields c s) as F. cbv zeta in F. destruct (do_get c s); cbn in *. brk. assumption.
   - unfold do_exec. destruct (status s); try reflexivity.
     destruct (lookup N_PROGRESS_CB k); destruct (handle_params _ _ _ _ _) as [[c2 m2] [e|]]; destruct m; reflexivity.
 Qed.
@@ -394,17 +411,17 @@ Proof. exists cfg_w, prog_esc, [Act (AExec Async [3] []); Wk; Wk; Act AStatus]. 
 Definition frozen (s : st) (v : option res) : Prop :=
   maybe_completed (status s) = true /\ conv_pending s = false /\ results s = v.
 
-Lemma do_get_frozen s v : frozen s v -> do_get s = (s, GValue v).
+Lemma do_get_frozen c s v : frozen s v -> do_get c s = (s, GValue v).
 Proof.
   intros (Hm & Hc & Hr). unfold do_get, do_status. destruct (status s) eqn:Est; try discriminate; cbn;
   rewrite ?Est; cbn; rewrite Hc, Hr; reflexivity.
 Qed.
 
-Lemma do_get_value_frozen s v : snd (do_get s) = GValue v -> frozen (fst (do_get s)) v.
+Lemma do_get_value_frozen c s v : snd (do_get c s) = GValue v -> frozen (fst (do_get c s)) v.
 Proof.
   unfold do_get, do_status, frozen.
   destruct (status s) eqn:Est; cbn; try discriminate;
-  try (destruct (worker s); cbn; try discriminate);
+  try (destruct (worker s); [destruct (status_needs_worker (ver c))| |]; cbn; try discriminate);
   rewrite ?Est; cbn;
   (destruct (conv_pending s) eqn:Ec; [destruct (results s) eqn:Er; [destruct (shape r =? 0)|]|]; cbn;
    intros H; inversion H; subst; cbn; rewrite ?Est, ?Ec; auto).
@@ -414,10 +431,10 @@ Lemma step_frozen c p s e v : Inv c p s -> frozen s v -> frozen (fst (step c p s
 Proof.
   intros (Hp & _) F. pose proof F as (Hm & Hc & Hr). destruct e as [|[| | |m a k|cb]]; cbn.
   - destruct (final_pc p s Hp Hm) as [E|E]; unfold wk; rewrite E; cbn; [|exact F].
-    rewrite (do_get_frozen s v F). cbn. exact F.
+    rewrite (do_get_frozen c s v F). cbn. exact F.
   - unfold do_status. destruct (status s) eqn:Est; try discriminate; cbn; exact F.
   - exact F.
-  - rewrite (do_get_frozen s v F). exact F.
+  - rewrite (do_get_frozen c s v F). exact F.
   - unfold do_exec. destruct (status s) eqn:Est; try discriminate; cbn; exact F.
   - exact F.
 Qed.
@@ -430,19 +447,19 @@ Proof.
 Qed.
 
 (* a value once obtained is obtained again, unchanged, after any further events *)
-Theorem results_idempotent c p l v : let s := final c p l in snd (do_get s) = GValue v ->
-  forall l2, snd (do_get (fst (run c p (fst (do_get s)) l2))) = GValue v.
+Theorem results_idempotent c p l v : let s := final c p l in snd (do_get c s) = GValue v ->
+  forall l2, snd (do_get c (fst (run c p (fst (do_get c s)) l2))) = GValue v.
 Proof.
-  cbv zeta. intros H l2. pose proof (do_get_value_frozen _ _ H) as F.
+  cbv zeta. intros H l2. pose proof (do_get_value_frozen c _ _ H) as F.
   pose proof (do_get_inv c p _ (final_inv c p l)) as Hi.
-  rewrite (do_get_frozen _ v (run_frozen c p l2 v _ Hi F)). reflexivity.
+  rewrite (do_get_frozen c _ v (run_frozen c p l2 v _ Hi F)). reflexivity.
 Qed.
 
 (* the value is converted exactly once when there is a mapping function, never otherwise *)
-Theorem results_converted_once c p l r : snd (do_get (final c p l)) = GValue (Some r) ->
+Theorem results_converted_once c p l r : snd (do_get c (final c p l)) = GValue (Some r) ->
   nconv r = if has_map c then 1%nat else 0%nat.
 Proof.
-  intros H. pose proof (do_get_value_frozen _ _ H) as (_ & Hc & Hr).
+  intros H. pose proof (do_get_value_frozen c _ _ H) as (_ & Hc & Hr).
   destruct (do_get_inv c p _ (final_inv c p l)) as (_ & Ri & _). unfold res_inv in Ri. rewrite Hr in Ri.
   destruct Ri as [(N & E)|(N & _ & E)]; rewrite N; [rewrite <- E, Hc|rewrite E]; reflexivity.
 Qed.
@@ -517,19 +534,29 @@ Proof.
   destruct kw2; [discriminate|eauto].
 Qed.
 
+Lemma in_remove_key k k' v (l : list (Z * Z)) : k <> k' -> In (k, v) l -> In (k, v) (remove_key k' l).
+Proof.
+  intros Hn. induction l as [|[k0 v0] l IH]; cbn; [auto|]. intros [H|H].
+  - inversion H; subst. destruct (k' =? k) eqn:E; [apply Z.eqb_eq in E; congruence|left; reflexivity].
+  - destruct (k' =? k0); [auto|right; auto].
+Qed.
+
+(* an unknown keyword (not a None-valued preset; progress_callback is a known keyword since 53f68db6) *)
 Theorem unknown_args_rejected_before_start c s m a k kn v :
-  status s = Waiting -> In (kn, v) k ->
+  status s = Waiting -> In (kn, v) k -> kn <> N_PROGRESS_CB ->
   ~ In (kn, None) (cmd s) -> ~ In (kn, None) (mapp s) ->
   (exists e, snd (do_exec c s m a k) = XRejected e) /\
   let s' := fst (do_exec c s m a k) in status s' = Waiting /\ pc s' = pc s /\ calls s' = calls s.
 Proof.
-  intros Est Hin Hc Hm.
+  intros Est Hin Hn Hc Hm.
   assert (R : exists e, snd (do_exec c s m a k) = XRejected e).
   { unfold do_exec. rewrite Est.
     set (s1 := match lookup N_PROGRESS_CB k with Some cb => set_ucb s (Some cb) | None => s end).
     assert (E1 : cmd s1 = cmd s /\ mapp s1 = mapp s) by (subst s1; destruct (lookup N_PROGRESS_CB k); auto).
     destruct E1 as (E1 & E2). rewrite E1, E2.
-    destruct (handle_params_unknown (names c) (dset (cmd s) N_PROGRESS_CB (Some 0)) (mapp s) a k kn v Hin) as (e & He); auto.
+    set (k1 := if cb_keyword_kept (ver c) then k else remove_key N_PROGRESS_CB k).
+    assert (Hin1 : In (kn, v) k1) by (subst k1; destruct (cb_keyword_kept (ver c)); auto using in_remove_key).
+    destruct (handle_params_unknown (names c) (dset (cmd s) N_PROGRESS_CB (Some 0)) (mapp s) a k1 kn v Hin1) as (e & He); auto.
     { intros Q. apply dset_none in Q. auto. }
     destruct (handle_params _ _ _ _ _) as [[c2 m2] oe]; cbn in He; subst oe. cbn. eauto. }
   split; [exact R|]. destruct R as (e & R).
@@ -542,24 +569,47 @@ Qed.
 Definition core (s : st) : st :=
   mkst (status s) (progress s) (phase s) (msg s) (cancel s) (worker s) (results s) (conv_pending s) None
        (cmd s) (mapp s) (sync s) (pc s) (calls s) [] (sync_ret s).
-Definition strip (e : ev) : ev := match e with Act (ASetCb _) => Act (ASetCb None) | _ => e end.
+(* the schedule with every supply of a callback erased: set_progress_callback(None), keyword removed *)
+Definition strip (e : ev) : ev :=
+  match e with
+  | Act (ASetCb _) => Act (ASetCb None)
+  | Act (AExec m a k) => Act (AExec m a (remove_key N_PROGRESS_CB k))
+  | _ => e
+  end.
 Definition no_cb_kw (e : ev) : Prop :=
   match e with Act (AExec _ _ k) => lookup N_PROGRESS_CB k = None | _ => True end.
-Definition nocb (c : cfg) : cfg := mkcfg (names c) (cmd0 c) (mapp0 c) (has_map c) None.
+Definition nocb (c : cfg) : cfg := mkcfg (names c) (cmd0 c) (mapp0 c) (has_map c) None (ver c).
 
-Lemma core_status s : fst (do_status (core s)) = core (fst (do_status s)) /\ snd (do_status (core s)) = snd (do_status s).
-Proof. unfold do_status. cbn. destruct (is_running (status s)); [destruct (worker s)|]; cbn; auto. Qed.
-
-Lemma core_get s : fst (do_get (core s)) = core (fst (do_get s)) /\ snd (do_get (core s)) = snd (do_get s).
+Lemma lookup_remove_same k l : lookup k (remove_key k l) = None.
 Proof.
-  unfold do_get. destruct (core_status s) as (E1 & E2).
-  destruct (do_status (core s)) as [t1 v1], (do_status s) as [s1 v]; cbn in *. subst.
+  induction l as [|[k0 v0] l IH]; cbn; [reflexivity|]. destruct (k =? k0) eqn:E; [exact IH|]. cbn. rewrite E. exact IH.
+Qed.
+Lemma remove_key_absent k l : lookup k l = None -> remove_key k l = l.
+Proof.
+  induction l as [|[k0 v0] l IH]; cbn; [reflexivity|]. destruct (k =? k0); [discriminate|]. intros H. rewrite IH; auto.
+Qed.
+
+Lemma core_status c s : fst (do_status (nocb c) (core s)) = core (fst (do_status c s)) /\
+                        snd (do_status (nocb c) (core s)) = snd (do_status c s).
+Proof.
+  unfold do_status. cbn.
+  destruct (is_running (status s)); [destruct (worker s); [destruct (status_needs_worker (ver c))| |]|]; cbn; auto.
+Qed.
+
+Lemma core_get c s : fst (do_get (nocb c) (core s)) = core (fst (do_get c s)) /\
+                     snd (do_get (nocb c) (core s)) = snd (do_get c s).
+Proof.
+  unfold do_get. destruct (core_status c s) as (E1 & E2).
+  destruct (do_status (nocb c) (core s)) as [t1 v1], (do_status c s) as [s1 v]; cbn in *. subst.
   destruct v; cbn; auto. destruct (negb (maybe_completed x)); cbn; auto.
   destruct (conv_pending s1); cbn; auto.
   destruct (results s1) as [r|]; cbn; [destruct (shape r =? 0); cbn; auto|]; destruct (is_failed x); auto.
 Qed.
 
-Lemma core_step c p s e : no_cb_kw e ->
+(* an event is harmless for the comparison if the keyword is consumed (current code) or absent *)
+Definition cb_ok (c : cfg) (e : ev) : Prop := cb_keyword_kept (ver c) = false \/ no_cb_kw e.
+
+Lemma core_step c p s e : cb_ok c e ->
   core (fst (step (nocb c) p (core s) (strip e))) = core (fst (step c p s e)).
 Proof.
   intros Hk. destruct e as [|[| | |m a k|cb]]; cbn.
@@ -571,51 +621,96 @@ Proof.
         rewrite ?andb_false_r; reflexivity.
     + unfold finish_worker. destruct (cancel s); cbn; destruct (sync s); reflexivity.
     + unfold finish_worker. cbn. destruct (sync s); reflexivity.
-    + destruct (core_get s) as (E1 & E2). destruct (do_get (core s)) as [t1 g1], (do_get s) as [s1 g]; cbn in *.
+    + destruct (core_get c s) as (E1 & E2). destruct (do_get (nocb c) (core s)) as [t1 g1], (do_get c s) as [s1 g]; cbn in *.
       subst. reflexivity.
-  - destruct (core_status s) as (E1 & E2). destruct (do_status (core s)), (do_status s); cbn in *. subst. reflexivity.
+  - destruct (core_status c s) as (E1 & E2). destruct (do_status (nocb c) (core s)), (do_status c s); cbn in *. subst. reflexivity.
   - reflexivity.
-  - destruct (core_get s) as (E1 & E2). destruct (do_get (core s)), (do_get s); cbn in *. subst. reflexivity.
-  - cbn in Hk. unfold do_exec. cbn. rewrite Hk. destruct (status s); try reflexivity.
-    destruct (handle_params _ _ _ _ _) as [[c2 m2] [e|]]; [reflexivity|]. destruct m; reflexivity.
+  - destruct (core_get c s) as (E1 & E2). destruct (do_get (nocb c) (core s)), (do_get c s); cbn in *. subst. reflexivity.
+  - unfold do_exec. cbn. rewrite lookup_remove_same. destruct (status s); try reflexivity.
+    destruct (cb_keyword_kept (ver c)) eqn:Ek.
+    + destruct Hk as [Hk|Hk]; [congruence|]. cbn in Hk. rewrite Hk. rewrite (remove_key_absent _ _ Hk).
+      destruct (handle_params _ _ _ _ _) as [[c2 m2] [e|]]; [reflexivity|]. destruct m; reflexivity.
+    + rewrite (remove_key_absent _ _ (lookup_remove_same N_PROGRESS_CB k)).
+      destruct (lookup N_PROGRESS_CB k); cbn;
+      (destruct (handle_params _ _ _ _ _) as [[c2 m2] [e|]]; [reflexivity|]; destruct m; reflexivity).
   - reflexivity.
 Qed.
 
-Lemma core_idem s : core (core s) = core s.
-Proof. reflexivity. Qed.
+Lemma strip_strip e : strip (strip e) = strip e.
+Proof.
+  destruct e as [|[| | |m a k|cb]]; cbn; try reflexivity.
+  rewrite (remove_key_absent _ _ (lookup_remove_same N_PROGRESS_CB k)). reflexivity.
+Qed.
 
-Lemma core_step' c p s t e : no_cb_kw e -> core t = core s ->
+Lemma cb_ok_strip c e : cb_ok (nocb c) (strip e).
+Proof. right. destruct e as [|[| | |m a k|cb]]; cbn; auto. apply lookup_remove_same. Qed.
+
+Lemma core_step' c p s t e : cb_ok c e -> core t = core s ->
   core (fst (step (nocb c) p t (strip e))) = core (fst (step c p s e)).
 Proof.
   intros Hk E. rewrite <- (core_step c p s e Hk). rewrite <- E.
-  assert (Hs : no_cb_kw (strip e)) by (destruct e as [|[]]; cbn; auto).
-  pose proof (core_step (nocb c) p t (strip e) Hs) as Q.
-  assert (S2 : strip (strip e) = strip e) by (destruct e as [|[]]; reflexivity).
-  rewrite S2 in Q. symmetry. exact Q.
+  pose proof (core_step (nocb c) p t (strip e) (cb_ok_strip c e)) as Q. rewrite strip_strip in Q.
+  symmetry. exact Q.
 Qed.
 
-Lemma core_run c p l : forall s t, Forall no_cb_kw l -> core t = core s ->
+Lemma core_run c p l : forall s t, Forall (cb_ok c) l -> core t = core s ->
   core (fst (run (nocb c) p t (map strip l))) = core (fst (run c p s l)).
 Proof.
-  induction l as [|e l IH]; intros s t Hf E; cbn; [exact E|]. inversion Hf; subst.
+  induction l as [|e l IH]; intros s t Hf E; cbn [map run]; [exact E|]. inversion Hf; subst.
   pose proof (core_step' c p s t e H1 E) as E1.
   destruct (step (nocb c) p t (strip e)) as [t1 o1], (step c p s e) as [s1 o]; cbn in *.
   specialize (IH s1 t1 H2 E1). destruct (run (nocb c) p t1 (map strip l)), (run c p s1 l); exact IH.
 Qed.
 
-(* installing, replacing or removing a user callback (at construction or with set_progress_callback, at any
-   point of any schedule) changes nothing but the callback itself and what it received *)
-Theorem user_callback_transparent c p l : Forall no_cb_kw l ->
+(* the code as it is now: supplying, replacing or removing a user callback in ANY way (at construction, with
+   set_progress_callback, with the progress_callback keyword of execute), at any point of any schedule, changes
+   nothing but the callback itself and what it received *)
+Theorem user_callback_transparent c p l : cb_keyword_kept (ver c) = false ->
   core (final (nocb c) p (map strip l)) = core (final c p l).
-Proof. intros H. unfold final. apply core_run; [exact H|reflexivity]. Qed.
+Proof.
+  intros H. unfold final. apply core_run; [|reflexivity]. apply Forall_forall. intros e _. left. exact H.
+Qed.
+
+(* any version of the code: true of schedules that do not use the keyword *)
+Theorem user_callback_transparent_without_keyword c p l : Forall no_cb_kw l ->
+  core (final (nocb c) p (map strip l)) = core (final c p l).
+Proof.
+  intros H. unfold final. apply core_run; [|reflexivity]. eapply Forall_impl; [|exact H]. intros e He. right. exact He.
+Qed.
+
+(* the code as it is now: execute(..., progress_callback=cb) is exactly set_progress_callback(cb) followed by
+   the same execute without the keyword: the callback is installed and the keyword does not reach _handle_params *)
+Theorem callback_keyword_installs c s m a k cb : cb_keyword_kept (ver c) = false ->
+  status s = Waiting -> lookup N_PROGRESS_CB k = Some cb ->
+  do_exec c s m a k = do_exec c (set_ucb s (Some cb)) m a (remove_key N_PROGRESS_CB k).
+Proof.
+  intros Hv Est Hl. unfold do_exec. cbn. rewrite Est, Hl, Hv, lookup_remove_same.
+  rewrite (remove_key_absent _ _ (lookup_remove_same N_PROGRESS_CB k)). reflexivity.
+Qed.
+
+Theorem callback_keyword_accepted c s m a k cb : cb_keyword_kept (ver c) = false ->
+  status s = Waiting -> lookup N_PROGRESS_CB k = Some cb ->
+  snd (do_exec c s m a (remove_key N_PROGRESS_CB k)) = XAccepted ->
+  snd (do_exec c s m a k) = XAccepted /\ user_cb (fst (do_exec c s m a k)) = Some cb.
+Proof.
+  intros Hv Est Hl. unfold do_exec. cbn. rewrite Est, Hl, Hv, lookup_remove_same.
+  rewrite (remove_key_absent _ _ (lookup_remove_same N_PROGRESS_CB k)). cbn.
+  destruct (handle_params _ _ _ _ _) as [[c2 m2] [e|]]; cbn; [discriminate|]. destruct m; cbn; auto.
+Qed.
 
 (* what the callback receives: each progress report made while no cancellation is pending *)
-Theorem callback_receives_progress p s cb pr ph rest : pc s = PTask ((pr, ph) :: rest) false ->
+Theorem callback_receives_progress c p s cb pr ph rest : pc s = PTask ((pr, ph) :: rest) false ->
   user_cb s = Some cb -> cancel s = false ->
-  let s' := fst (wk p s) in cb_log s' = cb_log s ++ [(cb, pr, ph)] /\ progress s' = pr /\ phase s' = ph.
+  let s' := fst (wk c p s) in cb_log s' = cb_log s ++ [(cb, pr, ph)] /\ progress s' = pr /\ phase s' = ph.
 Proof. intros Epc Eu Ec. unfold wk. rewrite Epc. cbn. rewrite Ec, Eu. cbn. auto. Qed.
 
-(* ... given with the progress_callback keyword it is rejected instead (the keyword is never consumed) *)
-Theorem callback_keyword_refuted : exists c p l,
-  trace c p l = [OExec (XRejected (PUnused [N_PROGRESS_CB]))] /\ calls (final c p l) = [].
-Proof. exists cfg_w, prog_w, [Act (AExec Sync [3] [(N_PROGRESS_CB, 7)])]. vm_compute. split; reflexivity. Qed.
+(* end to end on the current code: a callback given by keyword receives the task's progress *)
+Theorem callback_keyword_receives_progress :
+  trace cfg_w prog_w [Act (AExec Sync [3] [(N_PROGRESS_CB, 7)]); Wk; Wk] = [OExec XAccepted; OStarted; OProgress (ucb_resp 7) true] /\
+  cb_log (final cfg_w prog_w [Act (AExec Sync [3] [(N_PROGRESS_CB, 7)]); Wk; Wk]) = [(7, 500, 1)].
+Proof. vm_compute. split; reflexivity. Qed.
+
+(* HISTORICAL witness (code before 53f68db6): the keyword was never consumed and execute was rejected *)
+Theorem callback_keyword_refuted_old_code : exists p l,
+  trace cfg_old p l = [OExec (XRejected (PUnused [N_PROGRESS_CB]))] /\ calls (final cfg_old p l) = [].
+Proof. exists prog_w, [Act (AExec Sync [3] [(N_PROGRESS_CB, 7)])]. vm_compute. split; reflexivity. Qed.
